@@ -5,8 +5,8 @@ use educe::Educe;
 use core::cmp::Ordering;
 #[derive(Educe)]
 #[educe(Hash)]
-pub enum T { None }
-pub fn values() -> Vec<T> { vec![T::None] }
-pub fn show(x: &T) -> String { #[allow(unused_variables)] match x { T::None => format!("None()") } }
-pub fn o_hash(x: &T) -> Vec<String> { let mut e = Rec::default(); match x { T::None => { ::core::hash::Hash::hash(&0usize, &mut e); } } e.0 }
+pub struct T;
+pub fn values() -> Vec<T> { vec![T] }
+pub fn show(x: &T) -> String { #[allow(unused_variables)] match x { T => format!("T()") } }
+pub fn o_hash(x: &T) -> Vec<String> { let mut e = Rec::default(); match x { T => {  } } e.0 }
 pub fn run(out: &mut Out) { let vs = values(); for a in &vs { let mut g = Rec::default(); ::core::hash::Hash::hash(a, &mut g); let e = o_hash(a); out.check(g.0 == e, "hash_11", "hash", || format!("hash({}) fed {:?} expected {:?}", show(a), g.0, e)); } }
